@@ -496,6 +496,28 @@ def rule_P3(ctx, prefix, prog, site, allow_globals=()):
                               f"values", key=f"pathos:{','.join(stale)}", where=loc(site.fi, site.call))
 
 
+def rule_P3_module_ref(ctx, prefix, prog, modules):
+    """code shipped to a *persistent* pool by reference: a dynamically loaded module registered in sys.modules under a
+    fixed name makes its functions pickle by reference, so cached pathos workers keep resolving the first module"""
+    for rel in modules:
+        m = prog.module(rel)
+        uses_pathos = any(v.startswith("pathos.") for v in m.imports.values())
+        for fi in m.functions.values():
+            dyn = any(isinstance(c, ast.Call) and norm(c.func) in ("module_from_spec", "importlib.util.module_from_spec")
+                      for c in ast.walk(fi.node))
+            if not dyn:
+                continue
+            regs = [n for n in walk_no_nested(fi.node) if isinstance(n, ast.Assign) and
+                    isinstance(n.targets[0], ast.Subscript) and norm(n.targets[0].value) == "sys.modules"]
+            ctx.check(not (regs and uses_pathos), f"{prefix}.P3-MODULE-REF", fi.site,
+                      "the dynamically loaded recipe module is not registered in sys.modules: its function is pickled "
+                      "by value for every pool task",
+                      f"`{norm(regs[0])[:70] if regs else ''}` registers the dynamically loaded module under a fixed name: "
+                      f"its functions are then pickled *by reference*, and the cached pathos worker processes resolve "
+                      f"that name to the module they already hold — a second recipe file in the same process runs the "
+                      f"first recipe", where=loc(fi, regs[0]) if regs else None)
+
+
 def _is_local(f, name):
     if name in f.params:
         return True
